@@ -333,3 +333,19 @@ Example C04_source_example :
       | Err _ => None
       end) = Some ([(0, -1); (0, 0); (0, 1)], [0], [0], [1]).
 Proof. vm_compute. repeat split; reflexivity. Qed.
+
+(* ---- the command-line wrapper train_model.main is what the source says NOW ----
+   `src_cli_train_model` is the whole function main of /repo's current batchie/cli/train_model.py, re-translated on every run
+   (configuration CLI_TRAIN_MODEL -> Generated/SrcCli.v): the model built on ExperimentSpace.from_screen of the loaded screen is handed
+   add_observations(screen.subset_observed()) - the OBSERVED subset only, nothing when it is None - then sample(...) with the seed /
+   chain arguments, and the result is saved.
+   Model/Cli.v: the parsed arguments are a record of the plain argparse results (get_args() is not translated), `L` is a
+   record of the library functions the wrapper calls over abstract types (each component stands for the library function
+   of that name with its parameter list; `*_load_*` = what loading the file at a path yields), a main() denotes the list
+   of (path, content) files it writes, Err = the exception that ends it.  The links hold for EVERY such record. *)
+From Batchie Require Lib.PyRt Model.Cli Generated.SrcCli Proofs.C04SourceCli.
+Theorem C04_model_is_source_cli_train_model : forall (Scr Sub Sp Pa Mo Th : Type) (L : Cli.tm_lib Scr Sub Sp Pa Mo Th) (params : Pa) (a : Cli.tm_args),
+  SrcCli.src_cli_train_model Scr Sub Sp Pa Mo Th L params a
+  = Cli.cli_train_model L params a.
+Proof. exact C04SourceCli.src_cli_train_model_is_model. Qed.
+Print Assumptions C04_model_is_source_cli_train_model.
